@@ -531,6 +531,8 @@ def check_last_axis_cat(ctx, rep):
 
 
 def run(ctx, rep):
+    from sa import callbind
+    callbind.run_for(ctx, rep, 'C07', 2)
     rep.explanation = (
         "Abstract interpretation of every bijective Transform's forward map into a chain of primitives (cumsum/diff are unit-Jacobian, "
         "exp/log/softplus/expm1 are element-wise); the reported log-determinant must be the accepted normal form of Σ log|g'| for that chain "
